@@ -5,7 +5,7 @@
 (* A match configuration:                                                  *)
 (*   cases : sequence of [n : case name, p : has payload]   (the union)    *)
 (*   arms  : sequence of [c : case name, form : "bind" | "ignore" | "none"]*)
-(*           (each case at most once, any order)                           *)
+(*           (any order; normally each case at most once)                  *)
 (*   dflt  : whether the match ends with a default arm `| _ -> ...`        *)
 (*                                                                         *)
 (* Checker is the decision procedure of fc's parser (exaustiveCheck):      *)
